@@ -24,6 +24,7 @@ except (ImportError, AttributeError) as e:       # a name the harness reads is g
     raise MachineryError("C04 observation target missing: %r" % (e,))
 
 INHERITABLE = ("Resources", "MediaBox", "CropBox", "Rotate")
+RECORDED = INHERITABLE + ("Annots",)        # Annots: recorded as well, never inherited
 
 
 def open_doc(data, password=""):
@@ -80,12 +81,12 @@ def derive_tree(doc, limit=5000):
             d = doc.getobj(objid)
         except Exception:
             d = None
-        rec = {"kind": "Other", "vals": {a: 0 for a in INHERITABLE}, "kids": []}
+        rec = {"kind": "Other", "vals": {a: 0 for a in RECORDED}, "kids": []}
         if isinstance(d, dict):
             t = d.get("Type")
             if t is None and not settings.STRICT:
                 t = d.get("type")
-            for a in INHERITABLE:
+            for a in RECORDED:
                 rec["vals"][a] = vid(d.get(a))
             if t is LITERAL_PAGE:
                 rec["kind"] = "Page"
@@ -106,7 +107,7 @@ def derive_tree(doc, limit=5000):
             elif t is LITERAL_PAGES:
                 rec["kind"] = "Pages"
         nodes.append(rec)
-    cat = {a: vid(doc.catalog.get(a)) for a in INHERITABLE}
+    cat = {a: vid(doc.catalog.get(a)) for a in RECORDED}
     return nodes, cat, label_of, vid
 
 
@@ -178,7 +179,9 @@ def record_document(data, name, selections, password="", interpret=False):
     for p in pages:
         if p.pageid not in label_of:
             raise Unsupported("page %r was not reached through the tree (fallback scan)" % (p.pageid,))
-        evs.append({"node": label_of[p.pageid], "vals": {a: vid(p.attrs.get(a)) for a in INHERITABLE}})
+        vals = {a: vid(p.attrs.get(a)) for a in INHERITABLE}
+        vals["Annots"] = vid(p.annots)
+        evs.append({"node": label_of[p.pageid], "vals": vals})
     index_of = {p.pageid: i for i, p in enumerate(pages)}
     sels = []
     for pagenos, maxpages in selections:
